@@ -381,10 +381,10 @@ func c20zDescribe(z1, z2 [33]byte, nodes []*c20bNode, c *c20zChan) string {
 	return name(z1) + ", " + name(z2)
 }
 
-func c20zLabels(m map[string]bool) []string {
+func c20zLabels(m map[string]bool, prefix string) []string {
 	var ll []string
 	for k := range m {
-		ll = append(ll, k)
+		ll = append(ll, prefix+k)
 	}
 	sort.Strings(ll)
 
@@ -603,7 +603,7 @@ func TestVerifC20ZombieStore(t *testing.T) {
 			}
 		}
 
-		ll := c20zLabels(labels)
+		ll := c20zLabels(labels, "zs:")
 		st.Case(vstats.FP(append([]any{seed, baseTS, len(chans)},
 			trace...)...), nStrictOneSided > 0, ll,
 			map[string]any{"seed": seed, "ops": nOps, "labels": ll})
@@ -688,9 +688,9 @@ func TestVerifC20ZombieBuilder(t *testing.T) {
 
 		labels := map[string]bool{}
 		if strict {
-			labels["builder_strict"] = true
+			labels["strict"] = true
 		} else {
-			labels["builder_nonstrict"] = true
+			labels["nonstrict"] = true
 		}
 		var trace []any
 		nontrivial := false
@@ -922,7 +922,9 @@ func TestVerifC20ZombieBuilder(t *testing.T) {
 				update(l, ci, d, ts)
 				verify("UpdateEdge")
 
-			case k < 60: // AddEdge in whatever state
+			// AddEdge in whatever state (more often when the
+			// channel waits for its re-announcement)
+			case k < 60 || (k < 80 && !c.known && !c.zombie):
 				trace = append(trace, "E", ci)
 				err := b.AddEdge(bg, c.edgeInfo(nodes))
 				switch {
@@ -990,7 +992,7 @@ func TestVerifC20ZombieBuilder(t *testing.T) {
 			}
 		}
 
-		ll := c20zLabels(labels)
+		ll := c20zLabels(labels, "zb:")
 		st.Case(vstats.FP(append([]any{seed, strict, len(nodes),
 			len(chans)}, trace...)...), nontrivial, ll,
 			map[string]any{"seed": seed, "strict": strict,
